@@ -7,7 +7,8 @@ A case is a program-as-data in one of four dialects (one interpreter, `run_case`
             with missing branches and hl.case, lambdas, and the two mixed-member ops below);
   'table'   hl.utils.range_table(n) followed by steps (annotate, select, key_by, filter, transmute, drop,
             annotate_globals, group_by(..).aggregate(..), join, distinct) whose expressions are nested op lists over the
-            current row / global fields;
+            current row / global fields; half of the joins first key the left table by a scalar field that is not the first
+            of its row, and the right table is re-keyed to the left key's types whenever these are not the range table's;
   'matrix'  hl.utils.range_matrix_table(r, c) followed by steps (annotate_rows/cols/entries/globals, select_*,
             key_rows_by/key_cols_by, filter_*, row/col aggregations) and optionally rows()/cols()/entries() + table steps.
 
@@ -1375,7 +1376,12 @@ class Mixer:
             vs = [self.build(sh[2], path + ('Dv',), True, under_tuple, allow_none=(j > 0)) for j in range(n)]
             self._settle(ks)
             self._settle(vs)
-            return _Member({a.value: c.value for a, c in zip(ks, vs)}, any(m.has_expr for m in ks + vs))
+            d = {}
+            for a, c in zip(ks, vs):
+                if c.value is None and a.value in d:
+                    continue        # equal keys collapse (0, False, np.int32(0)): a None must not replace the typed value
+                d[a.value] = c.value
+            return _Member(d, any(m.has_expr for m in ks + vs))
         if k == 'T':
             ms = [self.build(s2, path + ('T', j), in_group, True) for j, s2 in enumerate(sh[1])]
             self._settle(ms)
@@ -1662,7 +1668,24 @@ def table_step(p, t, tt, step, what):
         ofields = [other[f] for f in other.row]
         es = p.outs(step[2], ofields, 2)
         other = other.annotate(**dict(zip(['jx', 'jy'], es)))
-        return t.join(other, how=['inner', 'left', 'right', 'outer'][step[3] % 4]), True
+        scalar = (hl.tint32, hl.tint64, hl.tfloat32, hl.tfloat64, hl.tstr, hl.tbool)
+        late = [f for f in names[1:] if t[f].dtype in scalar]
+        if step[3] & 4 and late:
+            # half of the joins first key the left table by a field that is NOT the first of its row (the engine puts the key
+            # fields first in the joined row, whatever their position on the left)
+            t = t.key_by(late[int(step[1]) % len(late)])
+        # a join needs equal key types: when the left key is not the single int32 of a range table, the right table is
+        # re-keyed by conversions of its idx to the left key's types (otherwise nearly every re-keyed left table is refused)
+        kts = list(t.key.dtype.types)
+        conv = {hl.tint32: lambda x: x, hl.tint64: hl.int64, hl.tfloat32: hl.float32, hl.tfloat64: hl.float64,
+                hl.tstr: hl.str, hl.tbool: lambda x: x > 1}
+        if kts and kts != [hl.tint32] and all(kt in conv for kt in kts):
+            other = other.key_by(**{f'jk{j}': conv[kt](other.idx + j) for j, kt in enumerate(kts)})
+            v.classes.add('join_right_rekeyed_to_left_key_types')
+        joined = t.join(other, how=['inner', 'left', 'right', 'outer'][step[3] % 4])
+        if kts and list(t.key) != list(t.row)[:len(kts)]:
+            v.classes.add('join_left_key_not_leading_fields')
+        return joined, True
     if k == 'index':
         other = hl.utils.range_table(int(step[1]) % 5 + 1)
         ofields = [other[f] for f in other.row]
@@ -1966,6 +1989,7 @@ def _strategies():
         st.tuples(st.just('key_by_expr'), prog, salt), st.tuples(st.just('filter'), prog),
         st.tuples(st.just('annotate_globals'), prog, k12, salt), st.tuples(st.just('distinct')),
         st.tuples(st.just('group_agg'), mask, prog, st.integers(0, 7)), st.tuples(st.just('join'), small, prog, salt),
+        st.tuples(st.just('join'), small, prog, salt), st.tuples(st.just('join'), small, prog, salt),
         st.tuples(st.just('index'), small, prog, prog, salt),
     )
     table_case = st.fixed_dictionaries({'kind': st.just('table'), 'n': st.integers(0, 6),
